@@ -154,6 +154,68 @@ def confirm(src, sid, pid):
         sh(["git", "-C", "/repo", "worktree", "prune"])
 
 
+def parse_run(run_txt):
+    import re
+    places = [l.split()[1:] for l in run_txt.splitlines() if l.startswith("PLACE ")]
+    cmds = [l[4:].strip() for l in run_txt.splitlines() if l.startswith("CMD ")]
+    if not places or not cmds:
+        for l in run_txt.splitlines():
+            l = l.strip()
+            m = re.match(r"cp\s+_seeded/\w+/(\S+)\s+(\S+)", l)
+            if m and [m.group(1), m.group(2)] not in places:
+                places.append([m.group(1), m.group(2)])
+            m = re.search(r"(demo\w*\.go|demo/main\.go)\s+(?:to|at|->|as)\s+(\S+\.go)", l)
+            if m and not places:
+                places.append([m.group(1), m.group(2)])
+            if re.match(r"(\(cd \S+ && )?((\w+=\S+ )*go (test|run) |rm -rf app/)", l) and l not in cmds:
+                cmds.append(l)
+    return places, cmds
+
+
+def reconfirm(sid):
+    """Does the seeded change still violate its property at the CURRENT /repo HEAD (later fix: commits may have
+    neutralised it)?  Runs only the demonstration, with and without the (rebased) patch."""
+    d = os.path.join(SD, sid)
+    meta = json.load(open(os.path.join(d, "meta.json")))
+    wt = "/var/tmp/sd-re-" + sid
+    sh(["git", "-C", "/repo", "worktree", "remove", "--force", wt])
+    rc, out = sh(["git", "-C", "/repo", "worktree", "add", "--detach", wt, "HEAD"])
+    env = dict(os.environ, GOPROXY="off")
+    status = "error"
+    try:
+        places, cmds = parse_run(open(os.path.join(d, "RUN.txt")).read())
+        if not places or not cmds:
+            status = "no-run-recipe"
+        else:
+            def place():
+                for f, rel in places:
+                    os.makedirs(os.path.dirname(os.path.join(wt, rel)), exist_ok=True)
+                    shutil.copy(os.path.join(d, f), os.path.join(wt, rel))
+            place()
+            rc0, out0 = sh(" && ".join(cmds), cwd=wt, env=env, timeout=1800)
+            rc, out = sh(["git", "apply", "-3", os.path.join(d, "patch.diff")], cwd=wt)
+            conflicts = sh(["git", "diff", "--name-only", "--diff-filter=U"], cwd=wt)[1].strip()
+            if rc != 0 or conflicts:
+                status = "patch-no-longer-applies"
+            else:
+                rb, _ = sh("go build ./...", cwd=wt, env=env)
+                rc1, out1 = sh(" && ".join(cmds), cwd=wt, env=env, timeout=1800)
+                if rb != 0:
+                    status = "does-not-build-at-head"
+                elif rc0 != 0:
+                    status = "demo-fails-without-patch-at-head"
+                elif rc1 != 0:
+                    status = "still-violates"
+                else:
+                    status = "neutralised-by-later-fix"
+    finally:
+        sh(["git", "-C", "/repo", "worktree", "remove", "--force", wt])
+        sh(["git", "-C", "/repo", "worktree", "prune"])
+    meta["status_at_head"] = {"head": sh(["git", "-C", "/repo", "rev-parse", "--short", "HEAD"])[1].strip(), "status": status}
+    json.dump(meta, open(os.path.join(d, "meta.json"), "w"), indent=1)
+    print(sid, status)
+
+
 if __name__ == "__main__":
     a = sys.argv[1:]
     tier = "quick"
@@ -163,6 +225,10 @@ if __name__ == "__main__":
         sys.exit(confirm(a[1], a[2], a[3]))
     if a[0] == "run":
         run_one(a[1], tier)
+    if a[0] == "reconfirm":
+        for sid in (a[1:] if len(a) > 1 and not a[1].startswith("--") else sorted(os.listdir(SD))):
+            if os.path.exists(os.path.join(SD, sid, "patch.diff")):
+                reconfirm(sid)
     if a[0] == "runall":
         for sid in sorted(os.listdir(SD)):
             if os.path.exists(os.path.join(SD, sid, "patch.diff")):
